@@ -472,7 +472,8 @@ pub async fn run_history(hi: usize, spec: &HSpec, seed: u64, thorough: bool, emi
                     if let Some(i) = idx {
                         written.insert(n.clone(), i);
                     }
-                    emit("S", &format!("w {} {} {}", ts, k, project(&src, true, &mut proj.ids)));
+                    let onp = validates_without_parent(&src, &Cfg::new(100, HEARTBEAT, 50)).await;
+                    emit("S", &format!("w {} {} {}", ts, k, project(&src, true, onp, &mut proj.ids)));
                 } else {
                     emit("S", "w-other");
                 }
@@ -657,7 +658,7 @@ pub async fn run_history(hi: usize, spec: &HSpec, seed: u64, thorough: bool, emi
             if modelled {
                 if let Some(b) = eb {
                     let eo = rn.obs().await;
-                    emit("O", &format!("ext {} h{} k{} v{}", project(&b, true, &mut proj.ids), hi, k, vi));
+                    emit("O", &format!("ext {} h{} k{} v{}", project(&b, true, true, &mut proj.ids), hi, k, vi));
                     emit("I", &format!("res={} tip={}:{}", ecls, eo.tip.0, proj.ids.h(&eo.tip.1)));
                 }
             }
